@@ -181,9 +181,11 @@ func c05(c *an.Ctx) {
 		}
 		// creator path only: guarded by !existed
 		okCreator := false
-		for _, g := range an.GuardStrings(si.Block()) {
-			if strings.HasPrefix(g, "!") && strings.HasSuffix(g, ".pendingBatchGroups[fs]#1") {
-				okCreator = true
+		for _, g := range an.GuardsOf(si.Block()) {
+			if ex, ok := g.Cond.(*ssa.Extract); ok && !g.Polarity && ex.Index == 1 {
+				if lk, ok := ex.Tuple.(*ssa.Lookup); ok && an.IsFieldAccess(lk.X, "batchContext", "pendingBatchGroups") {
+					okCreator = true
+				}
 			}
 		}
 		if !okCreator {
@@ -204,8 +206,15 @@ func c05(c *an.Ctx) {
 			}
 		}
 		for _, ci := range an.CondIfs(fn, func(v ssa.Value) bool {
-			s := an.Expr(v)
-			return strings.Contains(s, ".pendingBatchGroups[fs] == bg)") || strings.Contains(s, "(bg == ") && strings.Contains(s, ".pendingBatchGroups[fs])")
+			bo, ok := v.(*ssa.BinOp)
+			if !ok || bo.Op != token.EQL {
+				return false
+			}
+			isLk := func(x ssa.Value) bool {
+				lk, ok := x.(*ssa.Lookup)
+				return ok && an.IsFieldAccess(lk.X, "batchContext", "pendingBatchGroups")
+			}
+			return isLk(bo.X) || isLk(bo.Y)
 		}) {
 			if _, held := ls.HeldField(ci.If, "batchContext", "mu"); held {
 				blk.AddEdge(ci.If.Block(), ci.False)
@@ -329,7 +338,28 @@ func c05(c *an.Ctx) {
 			return
 		}
 		o.Site(closeMax)
-		if !an.HasGuard(closeMax.Block(), "(len(bg.args) == f.MaxSize)", "(f.MaxSize == len(bg.args))") {
+		isMaxTest := func(b *ssa.BasicBlock) bool {
+			for _, g := range an.GuardsOf(b) {
+				bo, ok := g.Cond.(*ssa.BinOp)
+				if !ok || bo.Op != token.EQL || !g.Polarity {
+					continue
+				}
+				isLenArgs := func(x ssa.Value) bool {
+					call, ok := x.(*ssa.Call)
+					if !ok {
+						return false
+					}
+					bi, ok := call.Call.Value.(*ssa.Builtin)
+					return ok && bi.Name() == "len" && bgField(call.Call.Args[0], "args")
+				}
+				isMax := func(x ssa.Value) bool { return an.IsFieldAccess(x, "Func", "MaxSize") }
+				if (isLenArgs(bo.X) && isMax(bo.Y)) || (isLenArgs(bo.Y) && isMax(bo.X)) {
+					return true
+				}
+			}
+			return false
+		}
+		if !isMaxTest(closeMax.Block()) {
 			o.FailAt(closeMax, "maxSizeCh closed under guards %v, expected len(bg.args) == f.MaxSize", an.GuardStrings(closeMax.Block()))
 		}
 		if mu == "" || !ls.SameSection(app, closeMax, mu) {
@@ -338,7 +368,7 @@ func c05(c *an.Ctx) {
 		// a delete in the same block/section so that nobody joins a full group
 		okDel := false
 		for _, d := range pendingDeletes(fn) {
-			if d.Block() == closeMax.Block() || (mu != "" && ls.SameSection(closeMax, d, mu) && an.HasGuard(d.Block(), "(len(bg.args) == f.MaxSize)")) {
+			if d.Block() == closeMax.Block() || (mu != "" && ls.SameSection(closeMax, d, mu) && isMaxTest(d.Block())) {
 				okDel = true
 			}
 		}
@@ -499,9 +529,23 @@ func c05(c *an.Ctx) {
 			if st, ok := i.(*ssa.Store); ok {
 				if fv, ok := st.Addr.(*ssa.FreeVar); ok && an.IsErrorType(fv.Type().(*types.Pointer).Elem()) && !isConstNil(st.Val) {
 					errStores++
-					for _, g := range an.GuardStrings(i.Block()) {
-						if strings.Contains(g, "len(result) != len(args)") || strings.Contains(g, "len(args) != len(result)") {
-							lenChecked = true
+					for _, g := range an.GuardsOf(i.Block()) {
+						bo, ok := g.Cond.(*ssa.BinOp)
+						if !ok || !((bo.Op == token.NEQ && g.Polarity) || (bo.Op == token.EQL && !g.Polarity)) {
+							// `err == nil && len(..) != len(..)` lowers to nested Ifs; look through the && phi too
+							if strings.Contains(an.Expr(g.Cond), "(len(") && strings.Contains(an.Expr(g.Cond), " != len(") && g.Polarity {
+								lenChecked = true
+							}
+							continue
+						}
+						lx, okx := bo.X.(*ssa.Call)
+						ly, oky := bo.Y.(*ssa.Call)
+						if okx && oky {
+							bx, ok1 := lx.Call.Value.(*ssa.Builtin)
+							by, ok2 := ly.Call.Value.(*ssa.Builtin)
+							if ok1 && ok2 && bx.Name() == "len" && by.Name() == "len" {
+								lenChecked = true
+							}
 						}
 					}
 				}
